@@ -82,6 +82,24 @@ def make_actor(table_path: str, op: Dict[str, Any], shared_table: Any = None, st
         if k == "append":
             if style == "with":
                 t.append_records(op["rows"])
+            elif style == "reuse":
+                # explicit style, and the SAME Transaction object is used again after whatever the commit did: a second
+                # transaction on it writes a file and is rolled back -- that rollback may only touch its own files
+                tx = t.new_transaction().begin()
+                tx.append_data(op["rows"])
+                first: Any = None
+                try:
+                    tx.commit()
+                except BaseException as e:      # noqa: BLE001 - the outcome of the first commit is re-raised below
+                    first = e
+                try:
+                    tx.begin()
+                    tx.append_data([{"x": 777}])
+                    tx.rollback()
+                except Exception:       # noqa: BLE001 - a refused reuse is fine; damage is judged on the table
+                    pass
+                if first is not None:
+                    raise first
             else:
                 tx = t.new_transaction().begin()
                 tx.append_data(op["rows"])
